@@ -183,7 +183,7 @@ type hold[T any] struct {
 
 func TestPropE2EActions(t *testing.T) {
 	ev.Check(t, func(rt *rapid.T) {
-		switch rapid.SampledFrom([]string{"redirect", "direct", "headers", "headers", "headers", "rewrite", "rewrite", "timeout", "try-timeout", "retry", "retry", "retry", "retry-connect", "retry-global-timeout"}).Draw(rt, "scenario") {
+		switch rapid.SampledFrom([]string{"redirect", "direct", "headers", "headers", "headers", "rewrite", "rewrite", "timeout", "try-timeout", "retry", "retry", "retry", "retry-connect", "retry-global-timeout", "retry-overflow"}).Draw(rt, "scenario") {
 		case "redirect":
 			redirectCase(rt)
 		case "direct":
@@ -202,6 +202,8 @@ func TestPropE2EActions(t *testing.T) {
 			retryConnectCase(rt)
 		case "retry-global-timeout":
 			retryGlobalTimeoutCase(rt)
+		case "retry-overflow":
+			retryOverflowCase(rt)
 		}
 	})
 }
@@ -1122,4 +1124,91 @@ func retryGlobalTimeoutCase(rt *rapid.T) {
 		ev.Class(partE2E, "timeout:remeasured")
 	}
 	fail(rt, "timeout/global-timeout-does-not-bound-retried-request", "%s: the client was answered after %v (%s), three times; the global timeout must complete the request at %v", desc, el, detail, global)
+}
+
+// retryOverflowCase: "a request is retried only under the configured conditions" - among the per-attempt outcomes the
+// property lists is OVERFLOW, which is not a retry condition. An overflow cannot be scripted at an upstream: it is what
+// the cluster's circuit breaker answers. The cluster has 2..3 hosts and max_connections=1 (HTTP/1 pools apply it per
+// host); a first request is held by the host X it reaches, so X's only connection is taken. Then the request under test
+// is sent: every other host answers it with a retryable status, round robin moves every retry to the next host, and
+// sooner or later (at once, if round robin starts at X) the turn comes to X, whose pool refuses: that ends the request.
+// Between two visits of one host round robin passes X, therefore: no host sees the request twice, X never sees it, and
+// the client gets an error status. (The retry budget, >= 3, is larger than the number of hosts.)
+func retryOverflowCase(rt *rapid.T) {
+	nHosts := rapid.IntRange(2, 3).Draw(rt, "hosts")
+	numRetries := uint32(rapid.IntRange(3, 6).Draw(rt, "numRetries"))
+	var codes []uint32
+	status := rapid.SampledFrom([]int{500, 502, 503}).Draw(rt, "status")
+	if rapid.Bool().Draw(rt, "statusList") {
+		codes = rapid.SampledFrom([][]uint32{{503}, {502, 504}, {404, 503}, {500}}).Draw(rt, "codes")
+		status = int(codes[rapid.IntRange(0, len(codes)-1).Draw(rt, "listedIdx")])
+	}
+	desc := fmt.Sprintf("%d hosts, max_connections=1, retry_on=true num_retries=%d status_codes=%v, a first request held by its host, then a request every other host answers with %d", nHosts, numRetries, codes, status)
+	ev.Case(partE2E, true, []byte("retry-overflow|"+desc), func() interface{} { return desc }, "kind:retry-overflow", fmt.Sprintf("retry:hosts=%d", nHosts))
+	ups := newUpstreams(nHosts, func(n int, r *seenReq) upAction {
+		if strings.HasPrefix(r.Target, "/slow") {
+			return upAction{Kind: "stall"}
+		}
+		return upAction{Kind: "reply", Status: status, Body: fmt.Sprintf("attempt %d", n)}
+	})
+	defer ups.Close()
+	retryPolicy := &v2.RetryPolicy{RetryPolicyConfig: v2.RetryPolicyConfig{RetryOn: true, NumRetries: numRetries, StatusCodes: codes}}
+	opts := mesh.Opts{Down: "Http1", Up: "Http1", Hosts: ups.addrs(), Timeout: 5 * time.Second, Retry: retryPolicy,
+		Cluster: func(cl *v2.Cluster) {
+			cl.CirBreThresholds = v2.CircuitBreakers{Thresholds: []v2.Thresholds{{MaxConnections: 1}}}
+		}}
+	cs, err := mesh.NewCaseBound(opts)
+	if err != nil {
+		rt.Skip("rig: " + err.Error())
+	}
+	defer cs.Close()
+	slow, err := mesh.DialH1(cs.Addr)
+	if err != nil {
+		rt.Skip("rig: " + err.Error())
+	}
+	// the held request is given up before the case is removed (removing a listener waits for its active requests)
+	defer time.Sleep(5 * time.Millisecond)
+	defer slow.Close()
+	if err := slow.Send(mesh.RawRequest("GET", "/slow", "h.example", [][2]string{{mesh.TokenHeader, "slow"}}, nil, false)); err != nil {
+		rt.Skip("rig: " + err.Error())
+	}
+	busy := -1
+	for end := time.Now().Add(3 * time.Second); busy < 0 && time.Now().Before(end); time.Sleep(time.Millisecond) {
+		for _, r := range ups.Log() {
+			if strings.HasPrefix(r.Target, "/slow") {
+				busy = r.Host
+			}
+		}
+	}
+	if busy < 0 {
+		rt.Skip("rig: the first request did not reach an upstream")
+	}
+	res := do1(cs.Addr, "GET", "/fail", "h.example", [][2]string{{mesh.TokenHeader, "tok"}}, waitDeadline)
+	if res.Err != nil {
+		fail(rt, "retry/no-response", "%s: %v", desc, res.Err)
+	}
+	time.Sleep(30 * time.Millisecond) // a late extra attempt would show up in the log
+	var hosts []int
+	seen := map[int]int{}
+	for _, r := range ups.Log() {
+		if strings.HasPrefix(r.Target, "/fail") {
+			hosts = append(hosts, r.Host)
+			seen[r.Host]++
+		}
+	}
+	desc += fmt.Sprintf(" -> host %d holds the first request; client status %d, %d attempt(s) on hosts %v", busy, res.Status, len(hosts), hosts)
+	for h, k := range seen {
+		if k > 1 {
+			fail(rt, "retry/retried-without-configured-condition:after-overflow", "%s: host %d saw the request %d times; between two visits round robin passes host %d, whose pool refuses (circuit breaker) - no retry condition", desc, h, k, busy)
+		}
+	}
+	if seen[busy] > 0 {
+		fail(rt, "retry/attempt-on-host-without-free-connection", "%s: host %d has its only admitted connection taken", desc, busy)
+	}
+	if res.Status < 500 {
+		fail(rt, "retry/final-status-wrong", "%s: no attempt succeeded but the client got %d", desc, res.Status)
+	}
+	if len(hosts) >= 1 {
+		ev.Class(partE2E, "retry-overflow:overflow-after-a-retryable-answer")
+	}
 }
